@@ -765,6 +765,16 @@ pub fn run_racy(cfg: &ScenCfg, out: &mut RunOut) {
             }
         }
     }
+    // the turn budget may run out before every chunk was handed over (byte-at-a-time plans over several
+    // sessions): the rest of each stream is delivered now, in one piece
+    for s in sess.iter_mut() {
+        if !s.cuts.is_empty() {
+            let rest = s.stream[s.pos..].to_vec();
+            s.pos = s.stream.len();
+            s.cuts.clear();
+            s.peer.write(&rest);
+        }
+    }
     // faults stop: deliver what is in flight
     kernel::advance(50 * 1_000_000);
     let journal = rig.journal.lock().unwrap().clone();
